@@ -91,11 +91,33 @@ func (c *Case) Resolve(inj *Injector) *Resolved {
 			structs = append(structs, u)
 		}
 	}
-	for _, su := range structs {
-		if _, ok := r.Supplier[su.Type]; !ok {
-			r.Orphans = append(r.Orphans, su.Type)
-			continue
+	// an expansion may find its source among the fields of another expansion, whatever the order
+	// they are listed in: expand whatever has a source until nothing changes
+	pending := structs
+	for len(pending) > 0 {
+		var next, ready []*Unit
+		for _, su := range pending {
+			if _, ok := r.Supplier[su.Type]; ok {
+				ready = append(ready, su)
+			} else {
+				next = append(next, su)
+			}
 		}
+		if len(ready) == 0 {
+			for _, su := range next {
+				r.Orphans = append(r.Orphans, su.Type)
+			}
+			break
+		}
+		pending = next
+		r.expand(ready, add)
+	}
+	return r.finish(inj)
+}
+
+func (r *Resolved) expand(structs []*Unit, add func(t TypeID, u *Unit, res int)) {
+	c := r.Case
+	for _, su := range structs {
 		st := c.StructOf(su.Type)
 		if st == nil {
 			continue
@@ -113,6 +135,10 @@ func (c *Case) Resolve(inj *Injector) *Resolved {
 			add(f.Type, fu, 0)
 		}
 	}
+}
+
+func (r *Resolved) finish(inj *Injector) *Resolved {
+	c := r.Case
 	// needed cone
 	if _, ok := r.Supplier[inj.Want]; !ok {
 		r.WantIsArg = true
